@@ -1,6 +1,6 @@
 (* C03 — protected paths: executable model of basicauth.BasicAuth.ServeHTTP's decision, of
    internalsrv.Internal's path test and of the path the static file resolver opens. *)
-Require Import V.Lib V.GoPath.
+Require Import V.Lib V.GoPath V.GoPathProofs V.Gen_C09.
 Open Scope N_scope.
 
 Record rule := { r_resources : list bytes; r_exclude : list bytes; r_creds_ok : bool }.
@@ -37,6 +37,279 @@ Definition internal_blocks (cs : bool) (path : bytes) (paths : list bytes) : boo
 (* the file the static resolver opens for URL path p: http.Dir.Open cleans "/" ++ p *)
 Definition resolved (p : bytes) : bytes := clean (SLASH :: p).
 
+
+(* ====================================================================================
+   The middleware chain (DESIGN §4 C03 "CHAIN")
+   ==================================================================================== *)
+
+(* what Path.Matches compares: the cleaned path, its trailing slash remembered *)
+Definition matcher_form (p : bytes) : bytes := clean p ++ (if ends_with_slash p then [SLASH] else []).
+Definition trivial_scope (b : bytes) : bool := beq b [SLASH] || beq b [].
+Definition fold_case (cs : bool) (s : bytes) : bytes := if cs then s else to_lower s.
+
+(* a canonical resource name f (a cleaned file name, or a directory name as the matcher spells it)
+   lies in scope [base]: Path.Matches' comparison without re-normalising the canonical name *)
+Definition under (cs : bool) (f base : bytes) : bool :=
+  trivial_scope base || has_prefix (fold_case cs f) (fold_case cs (matcher_form base)).
+
+(* ---- requests, handlers, results ---- *)
+Record request := { q_path : bytes;       (* r.URL.Path *)
+                    q_options : bool;     (* r.Method == OPTIONS *)
+                    q_xaccel : bytes }.   (* X-Accel-Redirect REQUEST header sent by the client *)
+Definition set_path (q : request) (p : bytes) : request :=
+  {| q_path := p; q_options := q_options q; q_xaccel := q_xaccel q |}.
+Definition with_xaccel (q : request) (x : bytes) : request :=
+  {| q_path := q_path q; q_options := q_options q; q_xaccel := x |}.
+
+(* a content handler's effect on the X-Accel-Redirect RESPONSE header: value after the call as a
+   function of the request it saw (all of it: path, the client's own headers) and the value before *)
+Definition hdrfun := request -> bytes -> bytes.
+
+Record result := { o_status : N;                (* 401 / 404 / 500 / 200 (a content handler answered) *)
+                   o_touched : list bytes;      (* request paths content handlers were run with *)
+                   o_hdr : bytes }.             (* X-Accel-Redirect in the response header map afterwards *)
+Definition deny (st : N) (w : bytes) : result := {| o_status := st; o_touched := []; o_hdr := w |}.
+Definition touch (h : hdrfun) (q : request) (w : bytes) : result :=
+  {| o_status := 200; o_touched := [q_path q]; o_hdr := h q w |}.
+
+(* internalsrv.Internal.ServeHTTP: the redirect loop. [cur] is the outcome of the previous call of the
+   inner chain; while the response header map carries X-Accel-Redirect (at most 10 times) the path is
+   replaced by the header value, the header is cleared and the inner chain runs again. *)
+Fixpoint accel_loop (fuel : nat) (inner : request -> bytes -> result) (q : request) (cur : result) : result :=
+  match o_hdr cur with
+  | [] => cur
+  | t :: ts =>
+      match fuel with
+      | O => {| o_status := 500; o_touched := o_touched cur; o_hdr := [] |}
+      | S k => let q' := set_path q (t :: ts) in
+               let nxt := inner q' [] in
+               accel_loop k inner q' {| o_status := o_status nxt;
+                                        o_touched := o_touched cur ++ o_touched nxt;
+                                        o_hdr := o_hdr nxt |}
+      end
+  end.
+
+Definition internal_serve (cs : bool) (paths : list bytes) (inner : request -> bytes -> result)
+           (q : request) (w : bytes) : result :=
+  if internal_blocks cs (q_path q) paths then deny 404 w
+  else accel_loop 10 inner q (inner q w).
+
+(* ---- middlewares ---- *)
+Inductive mw :=
+| MWriter (f : bytes -> bytes)                 (* tryfiles / rewrite / ext: ANY function of the path *)
+| MAuth (rules : list rule)                    (* basicauth *)
+| MInternal (paths : list bytes)               (* internal *)
+| MNeutral                                     (* a directive that never assigns r.URL.Path *)
+| MContent (takes : bytes -> bool) (h : hdrfun).   (* a content handler: answers the paths it takes *)
+
+Fixpoint run (cs : bool) (stk : list mw) (leaf : hdrfun) (q : request) (w : bytes) : result :=
+  match stk with
+  | [] => touch leaf q w                                        (* the static file server *)
+  | MWriter f :: r => run cs r leaf (set_path q (f (q_path q))) w
+  | MAuth rules :: r =>
+      match basicauth_decide cs (q_options q) (q_path q) rules with
+      | Deny401 => deny 401 w
+      | Pass => run cs r leaf q w
+      end
+  | MInternal paths :: r => internal_serve cs paths (run cs r leaf) q w
+  | MNeutral :: r => run cs r leaf q w
+  | MContent takes h :: r => if takes (q_path q) then touch h q w else run cs r leaf q w
+  end.
+
+(* ---- directive roles and the stack of a site ---- *)
+Inductive role := RWriter | RAuth | RInternal | RContent | RNeutral.
+Definition kind (m : mw) : role :=
+  match m with MWriter _ => RWriter | MAuth _ => RAuth | MInternal _ => RInternal
+             | MNeutral => RNeutral | MContent _ _ => RContent end.
+
+Fixpoint memb (x : bytes) (l : list bytes) : bool :=
+  match l with [] => false | y :: r => beq x y || memb x r end.
+
+Definition writer_names : list bytes := map bs ["tryfiles"; "rewrite"; "ext"]%string.
+Definition content_names : list bytes :=
+  map bs ["pprof"; "expvar"; "templates"; "proxy"; "fastcgi"; "cgi"; "websocket"; "filebrowser";
+          "webdav"; "markdown"; "browse"]%string.
+Definition role_of (name : bytes) : role :=
+  if memb name writer_names then RWriter
+  else if beq name (bs "basicauth"%string) then RAuth
+  else if beq name (bs "internal"%string) then RInternal
+  else if memb name content_names then RContent
+  else RNeutral.
+
+(* the source files under caskethttp/ that assign r.URL.Path (harness source scan, CAssigners):
+   ext, rewrite.To (used by rewrite and tryfiles), internal's redirect loop; server.go strips the
+   site's path prefix before the chain, log.go restores the URL for its error handler after the
+   chain, reverseproxy.go edits the OUTGOING copy only. *)
+Definition path_assigners : list bytes :=
+  map bs ["extensions/ext.go"; "httpserver/server.go"; "internalsrv/internal.go"; "log/log.go";
+          "proxy/reverseproxy.go"; "rewrite/to.go"]%string.
+
+(* a site configures at most one middleware per directive name; its role is the name's role *)
+Definition site := bytes -> option mw.
+Definition wf_site (s : site) : Prop := forall n m, s n = Some m -> kind m = role_of n.
+Fixpoint stack (s : site) (dirs : list bytes) : list mw :=
+  match dirs with
+  | [] => []
+  | n :: r => match s n with Some m => m :: stack s r | None => stack s r end
+  end.
+
+(* phase discipline: writers, then basicauth (once), then internal (once), then content handlers;
+   neutral directives anywhere.  [k] = lowest phase still allowed. *)
+Fixpoint sorted_from (k : nat) (rs : list role) : bool :=
+  match rs with
+  | [] => true
+  | RNeutral :: r => sorted_from k r
+  | RWriter :: r => Nat.leb k 0 && sorted_from 0 r
+  | RAuth :: r => Nat.leb k 1 && sorted_from 2 r
+  | RInternal :: r => Nat.leb k 2 && sorted_from 3 r
+  | RContent :: r => Nat.leb k 3 && sorted_from 3 r
+  end.
+
+(* ---- the normal form of an ordered chain ---- *)
+Fixpoint final_path (stk : list mw) (p : bytes) : bytes :=
+  match stk with
+  | MWriter f :: r => final_path r (f p)
+  | MNeutral :: r => final_path r p
+  | _ => p
+  end.
+Fixpoint auth_rules (stk : list mw) : list rule :=
+  match stk with
+  | MAuth rules :: _ => rules
+  | MWriter _ :: r => auth_rules r
+  | MNeutral :: r => auth_rules r
+  | _ => []
+  end.
+Fixpoint internal_paths (stk : list mw) : option (list bytes) :=
+  match stk with
+  | [] => None
+  | MInternal ps :: _ => Some ps
+  | MContent _ _ :: _ => None
+  | _ :: r => internal_paths r
+  end.
+Fixpoint answer (stk : list mw) (leaf : hdrfun) : hdrfun :=
+  match stk with
+  | [] => leaf
+  | MContent takes h :: r => fun q w => if takes (q_path q) then h q w else answer r leaf q w
+  | _ :: r => answer r leaf
+  end.
+
+Definition serve_part (cs : bool) (stk : list mw) (leaf : hdrfun) (q : request) (w : bytes) : result :=
+  match internal_paths stk with
+  | Some ps => internal_serve cs ps (touch (answer stk leaf)) q w
+  | None => touch (answer stk leaf) q w
+  end.
+
+Definition chain_nf (cs : bool) (stk : list mw) (leaf : hdrfun) (q : request) (w : bytes) : result :=
+  let q' := set_path q (final_path stk (q_path q)) in
+  match basicauth_decide cs (q_options q) (q_path q') (auth_rules stk) with
+  | Deny401 => deny 401 w
+  | Pass => serve_part cs stk leaf q' w
+  end.
+
+(* ---- what the content handlers can read for the (final) request path p ---- *)
+Definition dir_slash (c : bytes) : bytes := if beq c [SLASH] then c else c ++ [SLASH].
+
+Inductive read_kind := KFile | KSibling | KIndex | KIndexSibling | KListing | KArchive | KBackend.
+
+(* idx: index page names, exts: precompressed-sibling extensions.  File names are canonical
+   (http.Dir.Open cleans "/" ++ path); a listing is the content of the directory as the request
+   names it, a backend (proxy, fastcgi) is handed the request path itself. *)
+Inductive reads (idx exts : list bytes) (p : bytes) : read_kind -> bytes -> Prop :=
+| RdFile : ends_with_slash p = false -> reads idx exts p KFile (resolved p)
+| RdSibling e : ends_with_slash p = false -> In e exts -> reads idx exts p KSibling (resolved p ++ e)
+| RdIndex i : ends_with_slash p = true -> In i idx -> reads idx exts p KIndex (dir_slash (resolved p) ++ i)
+| RdIndexSibling i e : ends_with_slash p = true -> In i idx -> In e exts ->
+    reads idx exts p KIndexSibling (dir_slash (resolved p) ++ i ++ e)
+| RdListing : ends_with_slash p = true -> reads idx exts p KListing (matcher_form p)
+| RdArchive d : ends_with_slash p = true -> d <> [] -> reads idx exts p KArchive (dir_slash (resolved p) ++ d)
+| RdBackend : reads idx exts p KBackend (matcher_form p).
+
+(* the part of a read's name that the request path itself spells out *)
+Definition vis (p : bytes) (k : read_kind) : bytes :=
+  match k with
+  | KFile | KSibling => resolved p
+  | KIndex | KIndexSibling | KArchive => dir_slash (resolved p)
+  | KListing | KBackend => matcher_form p
+  end.
+(* the scope does not reach below that part (into an index file's name, a sibling's extension,
+   a descendant of the archived directory) *)
+Definition scope_within (p : bytes) (k : read_kind) (b : bytes) : bool :=
+  trivial_scope b || Nat.leb (length (matcher_form b)) (length (vis p k)).
+
+(* declarative protection of a canonical resource name by a rule *)
+Definition protects_res (cs : bool) (f : bytes) (ru : rule) : bool :=
+  existsb (under cs f) (r_resources ru) && negb (existsb (under cs f) (r_exclude ru)).
+
+(* a site given as an association list directive name -> middleware *)
+Fixpoint site_of (l : list (bytes * mw)) : site :=
+  fun n => match l with
+           | [] => None
+           | (a, m) :: r => if beq a n then Some m else site_of r n
+           end.
+Definition role_eqb (a b : role) : bool :=
+  match a, b with
+  | RWriter, RWriter | RAuth, RAuth | RInternal, RInternal | RContent, RContent | RNeutral, RNeutral => true
+  | _, _ => false
+  end.
+Definition wf_list (l : list (bytes * mw)) : bool :=
+  forallb (fun e => role_eqb (kind (snd e)) (role_of (fst e))) l.
+
+(* a site used by the non-vacuity examples *)
+Definition example_site : list (bytes * mw) :=
+  [ (bs "rewrite"%string, MWriter (fun p => if beq p (bs "/alias"%string) then bs "/secret/f.txt"%string else p));
+    (bs "ext"%string, MWriter (fun p => p));
+    (bs "gzip"%string, MNeutral);
+    (bs "basicauth"%string, MAuth [ {| r_resources := [bs "/secret"%string];
+                                       r_exclude := [bs "/secret/pub"%string]; r_creds_ok := false |} ]);
+    (bs "internal"%string, MInternal [bs "/int"%string]);
+    (bs "browse"%string, MContent (fun p => ends_with_slash p) (fun _ w => w)) ].
+
+(* ---- the statement of the chain theorem ---- *)
+Definition chain_of (s : site) : list mw := stack s gen_directives.
+Definition writers_rooted (stk : list mw) : Prop :=
+  forall f, In (MWriter f) stk -> forall x, rooted x -> rooted (f x).
+
+(* request q, sent without valid credentials, makes the content handlers of chain stk read resource
+   f (kind k), and f lies under resource [res] of basicauth rule [ru] and outside ru's exclusions *)
+Record protected_read (cs : bool) (idx exts : list bytes) (stk : list mw) (q : request)
+       (k : read_kind) (f : bytes) (ru : rule) (res : bytes) : Prop := {
+  pr_rooted : rooted (q_path q);
+  pr_writers : writers_rooted stk;
+  pr_not_options : q_options q = false;
+  pr_no_creds : forall r0, In r0 (auth_rules stk) -> r_creds_ok r0 = false;
+  pr_reads : reads idx exts (final_path stk (q_path q)) k f;
+  pr_rule : In ru (auth_rules stk);
+  pr_res : In res (r_resources ru);
+  pr_under : under cs f res = true;
+  pr_not_excl : forall e, In e (r_exclude ru) -> under cs f e = false /\ matcher_form e <> [SLASH; SLASH] }.
+
+(* the same for an internal location [pre] *)
+Record internal_read (cs : bool) (idx exts : list bytes) (stk : list mw) (q : request)
+       (k : read_kind) (f : bytes) (pre : bytes) : Prop := {
+  ir_rooted : rooted (q_path q);
+  ir_writers : writers_rooted stk;
+  ir_reads : reads idx exts (final_path stk (q_path q)) k f;
+  ir_paths : exists ps, internal_paths stk = Some ps /\ In pre ps;
+  ir_under : under cs f pre = true }.
+
+(* ---- scripted handler used by the correspondence cases ---- *)
+Definition ECHO : bytes := bs "ECHO"%string.
+Fixpoint lookup (k : bytes) (l : list (bytes * bytes)) : option bytes :=
+  match l with [] => None | (a, v) :: r => if beq a k then Some v else lookup k r end.
+(* path -> header value the handler sets ("ECHO": copies the client's request header); no entry: untouched *)
+Definition script_h (script : list (bytes * bytes)) : hdrfun :=
+  fun q w => match lookup (q_path q) script with
+             | Some v => if beq v ECHO then q_xaccel q else v
+             | None => w
+             end.
+
+Fixpoint list_bytes_eqb (a b : list bytes) : bool :=
+  match a, b with
+  | [], [] => true
+  | x :: a', y :: b' => beq x y && list_bytes_eqb a' b'
+  | _, _ => false
+  end.
+
 (* ---- cases ---- *)
 Inductive case :=
 | CMatches (cs : bool) (p base : bytes) (obs : bool)
@@ -44,7 +317,25 @@ Inductive case :=
 | CInternal (cs : bool) (path : bytes) (paths : list bytes) (obs_blocked : bool)
 (* full site: which protection scopes cover the canonical file (computed by the harness from
    the fixture), did the request carry valid credentials, was a protected token disclosed *)
-| CSite (unauth : bool) (disclosed : bool).
+| CSite (unauth : bool) (disclosed : bool)
+(* full site, the spec clause evaluated here: canonical names of the resources whose planted
+   tokens appeared in the decoded body; rules carry which credentials the request presented *)
+| CDisc (cs : bool) (is_options : bool) (rules : list rule) (ipaths : list bytes) (leaked : list bytes)
+(* internalsrv.Internal alone over a scripted inner handler *)
+| CAccel (cs : bool) (paths : list bytes) (script : list (bytes * bytes)) (w0 : bytes)
+         (p : bytes) (xreq : bytes) (obs_status : N) (obs_touched : list bytes)
+(* full site in canonical order: rewriters (their result [pfinal] measured on the unprotected twin
+   site), basicauth, internal (when configured), proxy to a backend that records the paths it sees *)
+| CChain (cs : bool) (is_options : bool) (pfinal : bytes) (rules : list rule) (has_internal : bool)
+         (ipaths : list bytes) (script : list (bytes * bytes)) (xreq : bytes)
+         (obs_status : N) (obs_touched : list bytes)
+(* source scan: files under caskethttp/ assigning r.URL.Path *)
+| CAssigners (obs : list bytes).
+
+Definition res_violation (cs opt : bool) (rules : list rule) (ipaths : list bytes) (f : bytes) : bool :=
+  (negb opt && existsb (protects_res cs f) rules &&
+   negb (existsb (fun ru => protects_res cs f ru && r_creds_ok ru) rules))
+  || existsb (under cs f) ipaths.
 
 Definition judge (c : case) : N :=
   match c with
@@ -57,4 +348,33 @@ Definition judge (c : case) : N :=
   | CInternal cs path paths obs =>
       verdict (Bool.eqb (internal_blocks cs path paths) obs) (Bool.eqb obs (existsb (path_matches cs path) paths))
   | CSite unauth disclosed => verdict true (negb (unauth && disclosed))
+  | CDisc cs opt rules ipaths leaked =>
+      verdict true (negb (existsb (res_violation cs opt rules ipaths) leaked))
+  | CAccel cs paths script w0 p xreq st tr =>
+      let q := {| q_path := p; q_options := false; q_xaccel := xreq |} in
+      let r := internal_serve cs paths (touch (script_h script)) q w0 in
+      let blocked := existsb (path_matches cs p) paths in
+      let named t := negb (beq t []) &&
+                     (existsb (fun e => beq (snd e) t) script || beq t w0 ||
+                      (existsb (fun e => beq (snd e) ECHO) script && beq t xreq)) in
+      let spec := if blocked then (st =? 404) && list_bytes_eqb tr []
+                  else match tr with
+                       | first :: rest => beq first p && forallb named rest && Nat.leb (length rest) 10 &&
+                                          ((st =? 200) || ((st =? 500) && Nat.eqb (length rest) 10))
+                       | [] => false
+                       end in
+      verdict ((o_status r =? st) && list_bytes_eqb (o_touched r) tr) spec
+  | CChain cs opt pfinal rules has_int ipaths script xreq st tr =>
+      let q := {| q_path := pfinal; q_options := opt; q_xaccel := xreq |} in
+      let stk := [MWriter (fun _ => pfinal); MAuth rules] ++ (if has_int then [MInternal ipaths] else []) in
+      let r := run cs stk (script_h script) q [] in
+      let denied := negb opt && existsb (protects cs pfinal) rules &&
+                    negb (existsb (fun ru => protects cs pfinal ru && r_creds_ok ru) rules) in
+      let blocked := has_int && existsb (path_matches cs pfinal) ipaths in
+      let spec := if denied then (st =? 401) && list_bytes_eqb tr []
+                  else if blocked then (st =? 404) && list_bytes_eqb tr []
+                  else match tr with first :: rest => beq first pfinal && (has_int || list_bytes_eqb rest [])
+                                   | [] => false end in
+      verdict ((o_status r =? st) && list_bytes_eqb (o_touched r) tr) spec
+  | CAssigners obs => verdict (list_bytes_eqb obs path_assigners) (list_bytes_eqb obs path_assigners)
   end.
